@@ -20,6 +20,7 @@ RULE = (
     "filters of depth<=2. Non-trivial: a pyramid with >=1 live parent, or an enumeration/algebra batch; distinct by case spec."
     ' Also: histories on one Pyramid object; every list returned by pos_children is consumed by the caller and asked again; parallel vi'
     'sits under delay profiles with 3/4/8 workers; falsy callable filter objects.'
+    ' Round 8: 48 cases in an interpreter started with PYTHONOPTIMIZE=1; pyramid objects re-depthed after use.'
 )
 ASSUMPTIONS = ["reference quadtree model (vlib/ref_quadtree.py) is correct", "filters are pure functions of the tile position/corners"]
 EXHAUSTIVE = {"thorough": "all 83521 ancestor-closed position-set filters of depth 2 (serial counts and visits); generate_pos to depth 7; position algebra to depth 4"}
